@@ -16,7 +16,8 @@ RULE = (
     'scales log-uniform 1e-6..1e6 plus the guarded region (0, negative, <1e-15), fractions in [0,1] incl. the ends; '
     'fwhm() is also called with the full parameter dictionary of multi-peak models (2-4 peaks + background; prefixes of equal '
     'length p1_/p2_, nested p_/p_1_/p_1_2_, empty mixed with non-empty, prefixes that look like parameter names); '
-    'a dtype stream gives x and every parameter its own dtype out of float64 / float32 / int64 / int32 (moderate values) and compares '
+    'the oracle also passes parameters in compatible but different units (loc / scale in mm|um|nm with x in m, scaled amplitude and '
+    'coefficient units): refusal or the same physics; a dtype stream gives x and every parameter its own dtype out of float64 / float32 / int64 / int32 (moderate values) and compares '
     'the result dtype / DTypeError with the model of scipp promotion (callDT); '
     'x at loc + k*scale (|k| <= 45) and far away; x / y units from a grid incl. scaled units; a malformed stream drops, adds '
     'or mis-prefixes a key or gives one parameter a wrong unit. Every case is evaluated by the real Model.__call__ and by '
@@ -726,6 +727,92 @@ def check_integral(a):
     return None
 
 
+LENGTHS = {'m': 0, 'mm': -3, 'um': -6, 'nm': -9}
+
+
+def _ratio(u_from: str, u_to: str) -> Fraction:
+    """exact factor between two of the length units"""
+    k = LENGTHS[u_from] - LENGTHS[u_to]
+    return Fraction(10) ** k
+
+
+def check_units_reinterpreted(a):
+    """parameters given in units compatible with, but different from, the implied ones (loc / scale in mm|um|nm with x in m,
+    the amplitude or the coefficients in scaled units): the call must EITHER be refused with UnitError OR mean, physically
+    (exact powers of ten), the analytic definition for the physical parameter values: half of the peak value at
+    loc ± FWHM/2 with the FWHM model.fwhm reports (in its own unit), integral = amplitude; polynomial = sum a_i x^i"""
+    import numpy as np
+    import scipp as sc
+    from scippneutron.peaks import model as M
+
+    ux = a['ux']
+    if a['kind'] == 'P':
+        coef, cu = a['coef'], a['coef_len_units']       # a_i in (counts * ylen / m) / culen_i^i
+        m = M.PolynomialModel(degree=len(coef) - 1)
+        params = {f'a{i}': sc.scalar(c, unit=sc.Unit('counts') * sc.Unit(a['y_len']) / sc.Unit('m') / sc.Unit(cu[i]) ** i)
+                  for i, c in enumerate(coef)}
+        x = sc.array(dims=['x'], values=np.asarray(a['xs'], dtype='float64'), unit=ux)
+        try:
+            r = m(x, **params)
+        except sc.UnitError:
+            return None
+        try:
+            r = sc.to_unit(r, 'counts')
+        except Exception as e:  # noqa: BLE001
+            return f'polynomial accepted, result unit {r.unit} is not a count ({type(e).__name__})'
+        yfac = _ratio(a['y_len'], 'm')
+        for xv, got in zip(a['xs'], r.values):
+            xp = Fraction(xv) * _ratio(ux, 'm')          # x in metres
+            terms = [Fraction(c) * yfac * _ratio('m', cu[i]) ** i * xp ** i for i, c in enumerate(coef)]
+            exact, scale = sum(terms), sum(abs(t) for t in terms)
+            if abs(Fraction(float(got)) - exact) > Fraction(1, 10**9) * scale:
+                return (f'accepted coefficients in units {[str(p.unit) for p in params.values()]} with x in {ux}: polynomial({xv!r} {ux}) = '
+                        f'{float(got)!r} counts, physically sum a_i x^i = {float(exact)!r} counts')
+        return None
+    kind = a['kind']
+    m = _peak(kind)
+    ua = sc.Unit(a['uy']) * sc.Unit(a['u_amp'])
+    params = {'amplitude': sc.scalar(a['A'], unit=ua), 'loc': sc.scalar(a['mu'], unit=a['u_loc']),
+              'scale': sc.scalar(a['sigma'], unit=a['u_scale'])}
+    if kind == 'V':
+        params['fraction'] = sc.scalar(a['f'])
+    fw = m.fwhm(params)
+    if fw.unit != sc.Unit(a['u_scale']):
+        return f'fwhm has unit {fw.unit}, the scale was given in {a["u_scale"]}'
+    # physical values in the unit of x, exact powers of ten
+    mu_p = float(Fraction(a['mu']) * _ratio(a['u_loc'], ux))
+    sg_p = float(Fraction(a['sigma']) * _ratio(a['u_scale'], ux))
+    h_p = float(Fraction(float(fw.value)) * _ratio(a['u_scale'], ux) / 2)
+
+    def call(xs):
+        with np.errstate(all='ignore'):
+            return m(sc.array(dims=['x'], values=np.asarray(xs, dtype='float64'), unit=ux), **params)
+
+    try:
+        r = call([mu_p, mu_p + h_p, mu_p - h_p])
+    except sc.UnitError:
+        return None
+    given = f"x in {ux}, loc in {a['u_loc']}, scale in {a['u_scale']}, amplitude in {ua}"
+    y = r.values
+    tol = 1e-9 + 8 * float(np.spacing(abs(mu_p) + h_p)) / sg_p
+    for i in (1, 2):
+        if not abs(y[i] - y[0] / 2) <= tol * abs(y[0] / 2):
+            return (f'accepted ({given}) but f(loc)={float(y[0])!r}, f(loc{"+-"[i - 1]}fwhm/2)={float(y[i])!r} with '
+                    f'fwhm={float(fw.value)!r} {fw.unit} (scale {a["sigma"]!r} {a["u_scale"]})')
+    nodes, w = _gl(4000)
+    t = nodes * (math.pi / 2)
+    rr = call(mu_p + sg_p * np.tan(t))
+    integral = float(np.sum(w * rr.values * sg_p / np.cos(t) ** 2) * (math.pi / 2))
+    try:
+        got = float(sc.to_unit(sc.scalar(integral, unit=rr.unit * sc.Unit(ux)), ua).value)
+    except Exception as e:  # noqa: BLE001
+        return f'accepted ({given}) but the result unit {rr.unit} times {ux} is not the amplitude unit ({type(e).__name__})'
+    tol = 1e-8 + 4 * float(np.spacing(abs(mu_p))) / sg_p
+    if not abs(got - a['A']) <= tol * abs(a['A']):
+        return f'accepted ({given}) but the integral is {got!r} {ua}, the amplitude {a["A"]!r} {ua}'
+    return None
+
+
 def check_symmetry(a):
     """f(loc + t) = f(loc - t) at points where loc ± t are exactly representable"""
     ts = a['ts']
@@ -985,6 +1072,7 @@ CHECKS = {
     'C16:half-max-at-fwhm': check_half_max,
     'C16:polynomial-sum': check_polynomial,
     'C16:dtype': check_x_dtype,
+    'C16:units-reinterpreted': check_units_reinterpreted,
     'C16:composite-sum': check_composite,
     'C16:prefix-keys': check_prefix,
     'C16:guess': check_guess,
@@ -1027,6 +1115,21 @@ def oracle(ctx, deep):
             _run(ctx, 'C16:symmetry', b)
         leaves, plist, _, _ = multi_peak(rng)
         _run(ctx, 'C16:fwhm-foreign-parameter', {'leaves': [list(t) for t in leaves], 'params': [(k, v, list(u)) for k, v, u in plist]})
+        # compatible but different units
+        lens = list(LENGTHS)
+        for kind in 'GLV':
+            r = rng.random()
+            ux_ = rng.choice(lens)
+            same = r < 0.35      # only the amplitude in a scaled unit: accepted by construction, must mean the same physics
+            _run(ctx, 'C16:units-reinterpreted', {
+                'kind': kind, 'ux': ux_, 'u_loc': ux_ if same or rng.random() < 0.6 else rng.choice(lens),
+                'u_scale': ux_ if same else rng.choice(lens), 'u_amp': rng.choice(lens), 'uy': rng.choice(['counts', 'dimensionless', 's']),
+                'A': rng.choice([-1, 1]) * logu(rng, 1e-3, 1e3), 'mu': rng.uniform(-50, 50), 'sigma': logu(rng, 1e-3, 1e3), 'f': rng.random()})
+        dg = rng.randint(1, 4)
+        ux_ = rng.choice(lens)
+        cu = [ux_] * (dg + 1) if rng.random() < 0.5 else [rng.choice(lens) for _ in range(dg + 1)]
+        _run(ctx, 'C16:units-reinterpreted', {'kind': 'P', 'ux': ux_, 'coef': [rng.choice([-1, 1]) * logu(rng, 1e-2, 1e2) for _ in range(dg + 1)],
+                                              'coef_len_units': cu, 'y_len': rng.choice(lens), 'xs': [rng.uniform(-5, 5) for _ in range(3)]})
         # polynomial in every dtype: (A) float64 coefficients, any x; (B) floating leading coefficient, anything else
         deg = rng.randint(1, 6)
         xdt = rng.choice(DTYPES)
